@@ -29,7 +29,7 @@ def from_f64_ok(F, m):
     ff = F.by_key.get("<eval_number::number::Number as std::convert::From<f64>>::from")
     if ff is None:
         return False, "From<f64> for Number not found", None
-    tf = m.tb.fn_term(ff, inline_pure=True)
+    tf = m.tb.deep_term(ff)
     v = ("param", T.param_ids(ff)[0][1])
     FLOATV = ("ctor", "Number::Float", v)
     e = M(("if", "?c", ("if", "?g", ("ctor", "Number::Integer", ("cast", "f64", "i64", "?t")), FLOATV), FLOATV), tf)
@@ -54,10 +54,10 @@ def main(tier):
     if fi is None or ff is None:
         run.fail_closed("anchor missing: From<i64>/From<f64> for Number")
         return run.finish("case analysis", "./check C18 --tier %s" % tier)
-    ti = m.tb.fn_term(fi, inline_pure=True)
+    ti = m.tb.deep_term(fi)
     e = M(("ctor", "Number::Integer", ("param", "?v")), ti)
     run.ob(e is not None, "from-i64", "C18 Number::from(i64) is Integer of the same value", fi.key, T.show(ti)[:120], sample={"fn": "From<i64>", "tree": T.show(ti)})
-    tf = m.tb.fn_term(ff, inline_pure=True)
+    tf = m.tb.deep_term(ff)
     v = ("param", T.param_ids(ff)[0][1])
     FLOATV = ("ctor", "Number::Float", v)
     # shape: if integral(v) { if guard(t(v)) { Integer(t(v) as i64) } else { Float(v) } } else { Float(v) }   (or a single conjunction)
